@@ -10,16 +10,24 @@ ID = "C12"
 RUN_MODULE = "RunC12"
 DRIVER = "async_driver.py"
 SHARD = 120
-RULE = ("one case = one workload (1-3 producers, set_data/add_metadata/save on 1-3 recordings, failing storage calls) "
+RULE = ("one case = one workload (1-3 producers, set_data/add_metadata/save on 1-3 recordings, failing storage calls; short: "
+        "up to 18 requests, or a long history: 10^2 .. 5*10^3 requests in the quick tier, up to 1.2*10^4 in the thorough tier) "
         "under one schedule (token schedule: producers' requests interleaved with the flusher's atomic steps) or under a "
         "family of schedules explored by the driver (bounded-preemption exhaustive or seeded random, at atomic or source-line "
         "granularity; the evidence counts such a case once, its schedules are in input_distribution as runs:*); "
-        "non-trivial = at least two requests; distinct = distinct (workload, schedule)")
+        "long histories run under token schedules that leave hundreds to thousands of requests pending when close() is "
+        "called (timer never fires / flusher inside a storage call while the burst arrives / one big batch flushed midway / "
+        "timer fires a few times), input_distribution shows pending-at-close:* and largest-flush-batch:* as measured on the "
+        "implementation's trace; non-trivial = at least two requests; distinct = distinct (workload, schedule)")
 EXHAUSTIVE = {"quick": True, "thorough": True}
 ASSUMPTIONS = [
     "atomic-step reduction: lock-protected regions are atomic and steps on disjoint state commute (gated by the ast check "
     "that every access to _recording_operation_buffer outside __init__ is lexically inside `with self._lock:`)",
-    "join(timeout_on_close) does not expire before the flusher finishes (the scheduled join never times out)",
+    "join(timeout_on_close) does not expire before the flusher finishes (the scheduled join never times out; with real "
+    "storage a backlog of thousands of operations can take longer than timeout_on_close - runtime, not checked)",
+    "history length: the theorems have no bound; the runs cover backlogs at close() up to ~4.9k requests (quick) / ~12k "
+    "(thorough), chosen to straddle 100, 256, 1000, 1024, 2048, 4096, 10000 - a size-dependent change that only shows "
+    "beyond that is not exercised",
     "wrapped storage failures are Exceptions (a BaseException would end the flusher thread)",
     "requests are issued through set_data / add_metadata / save_recording (Recording.__setitem__ bypasses the closed "
     "check of the AsyncRecording and is outside the modelled request alphabet)",
@@ -193,17 +201,19 @@ def mk(work, sched, label):
 # --------------------------------------------------------------------------------------------------
 # long histories: "every write requested before close is applied" has no bound on how many are pending
 # --------------------------------------------------------------------------------------------------
-def long_work(rng, nprod, total, nrec, pfail=0.003):
+def long_work(rng, nprod, total, nrec, pfail=0.003, own=False):
     """A long recording session: `total` requests over nprod producers and nrec recordings.  Every recording is saved
     once, by one producer, near the end of that producer's requests (so the tail of the history holds the saves and
-    whole small recordings); data keys repeat (later values overwrite), a few storage calls fail."""
+    whole small recordings); data keys repeat (later values overwrite), a few storage calls fail.  own: every producer
+    writes only the recordings it saves (free-running threads: their relative pace is not controlled)."""
+    nrec = max(nrec, nprod) if own else nrec
     cuts = sorted(rng.sample(range(1, total), nprod - 1)) if nprod > 1 else []
     sizes = [b - a for a, b in zip([0] + cuts, cuts + [total])]
     while min(sizes) < nrec + 2:                      # room for the saves
         k = sizes.index(min(sizes))
         sizes[sizes.index(max(sizes))] -= nrec + 2
         sizes[k] += nrec + 2
-    saver = [rng.randrange(nprod) for _ in range(nrec)]
+    saver = [r % nprod if own else rng.randrange(nprod) for r in range(nrec)]
     work = []
     for p, n in enumerate(sizes):
         mine = [r for r in range(nrec) if saver[r] == p]
@@ -216,8 +226,9 @@ def long_work(rng, nprod, total, nrec, pfail=0.003):
                 ops.append(op_save(at[i], rng.randrange(1, 5) if rng.random() < 10 * pfail else 0))
                 saved.add(at[i])
                 continue
-            free = [r for r in range(nrec) if r not in saved]
-            rec = rng.choice(free) if free and rng.random() > 0.01 else rng.randrange(nrec)   # (else: write after own save)
+            free = [r for r in (mine if own else range(nrec)) if r not in saved]
+            rec = rng.choice(free) if free and rng.random() > 0.01 else rng.choice(mine if own else range(nrec))
+            # (else: a write after the producer's own save - refused at the caller)
             fail = rng.randrange(1, 5) if rng.random() < pfail else 0
             x = rng.random()
             if x < 0.82:
@@ -231,12 +242,15 @@ def long_work(rng, nprod, total, nrec, pfail=0.003):
 
 
 def burst_merge(rng, work):
-    """the producers' requests merged in bursts (runs of 1..60 requests of one producer)"""
+    """the producers' requests merged in bursts (runs of up to 60 requests of one producer); the producers advance at
+    the same relative pace, so that the saves at the end of each workload come late in the whole history (a write on a
+    recording whose save was already requested is refused at the caller and never pending)"""
     left = [len(o) for o in work]
     seq = []
     while any(left):
-        p = rng.choice([i for i, n in enumerate(left) if n])
-        k = min(left[p], rng.randrange(1, 61))
+        p = rng.choices(range(len(left)), weights=left)[0]
+        k = rng.randrange(1, 2 + min(left[p], 60 * left[p] // max(left)))
+        k = min(k, left[p])
         left[p] -= k
         seq += [["P", p]] * k
     return seq
@@ -276,9 +290,9 @@ def long_case(rng, shape, lo, hi, nprod, nrec):
 def long_cases(rng, quick):
     """Sizes straddle the round numbers a batching / capacity constant would plausibly have (100, 256, 1000, 1024, 2048,
     4096, ..): a few cases per shape, the backlog at close() between ~10^2 and ~10^4 requests."""
-    plan = [("never-flushed", 101, 300, 1, 1), ("never-flushed", 1025, 1300, 1, 2), ("never-flushed", 2049, 2600, 2, 3),
-            ("never-flushed", 4097, 4800, 3, 3),
-            ("slow-storage", 257, 600, 2, 2), ("slow-storage", 1025, 1500, 3, 3), ("slow-storage", 2500, 3300, 1, 2),
+    plan = [("never-flushed", 101, 300, 1, 1), ("never-flushed", 1100, 1400, 1, 2), ("never-flushed", 2200, 2700, 2, 3),
+            ("never-flushed", 4400, 4900, 3, 3),
+            ("slow-storage", 257, 600, 2, 2), ("slow-storage", 1100, 1500, 3, 3), ("slow-storage", 2500, 3300, 1, 2),
             ("flushed-midway", 300, 900, 2, 2), ("flushed-midway", 2100, 2900, 1, 3), ("flushed-midway", 3000, 4100, 3, 2),
             ("rare-timer", 1100, 2000, 2, 3)]
     if not quick:
@@ -356,8 +370,8 @@ def generate(rng, tier):
     #    (drawn last: the streams above are the same cases as before for every seed)
     longs = long_cases(rng, quick)
     if not quick:
-        for j, (n, interval, delay) in enumerate([(3000, 30.0, 0.0), (1500, 30.0, 0.0), (2500, 0.002, 0.0003)]):
-            w = long_work(rng, 1 + j % 3, n + rng.randrange(200), 1 + (j + 1) % 3)
+        for j, (n, interval, delay) in enumerate([(3000, 30.0, 0.0), (2600, 30.0, 0.0), (2500, 0.002, 0.0003)]):
+            w = long_work(rng, 1 + j % 3, n + rng.randrange(200), 1 + (j + 1) % 3, own=True)
             longs.append(mk(w, dict(kind="threads", runs=3, delay=delay, switch=1e-5, interval=interval, burst=True),
                             "long-history-real-threads"))
     for j, c in enumerate(longs):          # spread between the random walks
@@ -625,10 +639,10 @@ def backlog_at_close(trace):
 
 
 def _bucket(n):
-    for lim, name in ((10, "<10"), (100, "10-99"), (1000, "100-999"), (2000, "1000-1999"), (4000, "2000-3999")):
+    for lim, name in ((10, "<10"), (100, "10-99"), (1001, "100-1000"), (2049, "1001-2048"), (4097, "2049-4096")):
         if n < lim:
             return name
-    return "4000+"
+    return "4097+"
 
 
 def _key(case):
@@ -800,7 +814,7 @@ def nontrivial(case):
 
 MANIFEST = dict(
     design_ref='6/C12',
-    text='Coq theorems over ALL reachable states of a producer/buffer/flusher transition system (any number of producers, any workloads of set_data/add_metadata/save with failing storage calls, any interleaving, any timer firing pattern): invariant applied++batch++buffer = enqueue order; when the flusher is done every accepted request was applied exactly once in enqueue order and the wrapped cassette and every outcome equal the synchronous run (sync_apply), also when callers keep changing a metadata dict after passing it (legacy defect F12 refuted with a witness, repaired by ba7c02c); failure does not block; producers blocked only inside the two-statement swap; termination within |buffer|+|batch|+8 flusher steps after close. Model tied to /repo on every run by driving the REAL AsyncRecordOnlyTapeCassette/AsyncRecording under deterministic schedules (cooperative scheduler over substituted Thread/Lock/Event, re-entrant spy cassette, sys.settrace line stepping): exhaustive token interleavings of small workloads, bounded-preemption exhaustive exploration at atomic and source-line granularity, seeded random walks; Coq replays every implementation trace (each step must be enabled) and compares applied order, outcomes, stored recordings. ast gate: every buffer access under the lock. Direct predicate on the implementation: exactly-once, per-producer and real-time order, contents == synchronous twin, no storage call on caller threads, callers never blocked by a storage call, no deadlock; thorough adds free-running real threads.',
+    text='Coq theorems over ALL reachable states of a producer/buffer/flusher transition system (any number of producers, any workloads of set_data/add_metadata/save with failing storage calls, any interleaving, any timer firing pattern): invariant applied++batch++buffer = enqueue order; when the flusher is done every accepted request was applied exactly once in enqueue order and the wrapped cassette and every outcome equal the synchronous run (sync_apply), also when callers keep changing a metadata dict after passing it (legacy defect F12 refuted with a witness, repaired by ba7c02c); failure does not block; producers blocked only inside the two-statement swap; termination within |buffer|+|batch|+8 flusher steps after close. Model tied to /repo on every run by driving the REAL AsyncRecordOnlyTapeCassette/AsyncRecording under deterministic schedules (cooperative scheduler over substituted Thread/Lock/Event, re-entrant spy cassette, sys.settrace line stepping): exhaustive token interleavings of small workloads, bounded-preemption exhaustive exploration at atomic and source-line granularity, seeded random walks, and long histories (10^2..10^4 requests, 1-3 producers) under schedules that leave hundreds to thousands of requests pending at close() or in one flush batch (timer never fires, flusher inside a storage call while the burst arrives, one big flush midway, rare timer); Coq replays every implementation trace (each step must be enabled) and compares applied order, outcomes, stored recordings. ast gate: every buffer access under the lock. Direct predicate on the implementation: exactly-once, per-producer and real-time order, contents == synchronous twin, no storage call on caller threads, callers never blocked by a storage call, no deadlock; thorough adds free-running real threads (also bursts of thousands of requests with a flush interval longer than the session).',
     note='Trusted: Coq kernel + vm_compute; hand-written model; atomic-step reduction (argued, gated by the ast lock check); the cooperative scheduler and trace projection of the driver; join timeout expiry, daemon-thread death at interpreter exit and true parallel lock behaviour are runtime (partial).',
     technique='Coq proof (invariant over a step relation, refinement to a synchronous fold) + trace-replay correspondence by vm_compute + systematic schedule exploration of the real code',
 )
